@@ -53,7 +53,10 @@ def gen_case(rng):
     sizes = sorted({sum(len(str(k)) + len(str(v)) for k, v in p.items()) + 2 for s in specs.values() for _, p in s["logs"]} or {30})
     limit = rng.choice([None, 1, 2, sizes[0] - 1, sizes[0], sizes[0] + 1, 150, 4096, sizes[-1], sum(sizes)])
     workers = rng.choice([2, 3, 4, 8])
-    return {"agents": agents, "graphs": graphs, "specs": specs, "limit": limit if (limit is None or limit >= 1) else 1, "workers": workers,
+    # where the driver finds an agent's graph set: state["agents"][a] as dict or object, a record without a graphs
+    # entry that falls back to state["graphs_by_agent"], or graphs_by_agent only
+    layout = {a: rng.choice(["agents-dict", "agents-dict", "agents-obj", "record-without-graphs+gba", "gba-only"]) for a in agents}
+    return {"agents": agents, "graphs": graphs, "specs": specs, "limit": limit if (limit is None or limit >= 1) else 1, "workers": workers, "layout": layout,
             "turn_id": rng.choice([1, 1, 7, "x"]), "cadence": rng.choice([1, 1, 2]), "overlap": overlap}
 
 
@@ -106,7 +109,18 @@ def run_driver(case, parallel, sess):
         try:
             cfg = to_ad({"perf": {"parallel": {"enabled": bool(parallel), "agents": True, "max_workers": case["workers"]}},
                          "t4": {"snapshot_dir": snapd, "snapshot_every_n_turns": case["cadence"], "cache_bust_mode": "none", "weight_min": -1.0, "weight_max": 1.0}})
-            state = {"store": build_world_store({}), "version_etag": "0", "agents": {a: {"graphs": list(g)} for a, g in case["graphs"].items()}, "_boot_loaded": True}
+            state = {"store": build_world_store({}), "version_etag": "0", "agents": {}, "graphs_by_agent": {}, "_boot_loaded": True}
+            for a, g in case["graphs"].items():
+                lay = (case.get("layout") or {}).get(a, "agents-dict")
+                if lay == "agents-dict":
+                    state["agents"][a] = {"graphs": list(g)}
+                elif lay == "agents-obj":
+                    state["agents"][a] = NS(graphs=list(g), name=a)
+                elif lay == "record-without-graphs+gba":
+                    state["agents"][a] = {"name": a}
+                    state["graphs_by_agent"][a] = list(g)
+                else:
+                    state["graphs_by_agent"][a] = list(g)
             ctx = NS(turn_id=case["turn_id"], agent_id="batch", cfg=cfg, config=cfg, now_ms=0)
             trace = []
             computed = []
